@@ -21,3 +21,6 @@ func (c *Chain) VerifStructsFinalizeBlockProcess(ctx context.Context, fb *block.
 
 // VerifStructsMbRoundOffset forwards to the unexported mbRoundOffset (C40).
 func VerifStructsMbRoundOffset(rn int64) int64 { return mbRoundOffset(rn) }
+
+// VerifStructsDeleteRound forwards to the unexported deleteRound (C36: re-populating rounds).
+func (c *Chain) VerifStructsDeleteRound(ctx context.Context, r round.RoundI) { c.deleteRound(ctx, r) }
